@@ -440,9 +440,11 @@ def parsePelFromID(path: str, config: Config) -> None:
         for file in files:
             if pelID not in file:
                 continue
-            parseAndPrintPELFile(os.path.join(root, file), config, False)
-            foundID = True
-            break
+            # A file that merely has the id in its name but is not a PEL
+            # (e.g. the .json file left by --json) is not a match.
+            if parseAndPrintPELFile(os.path.join(root, file), config, False):
+                foundID = True
+                break
         # Only process top level directory
         break
     if not foundID:
